@@ -216,9 +216,5 @@ def run(ctx):
 
 
 def replay(ctx, path):
-  log("replay of C07 findings: re-run ./check C07 (histories are regenerated from the seed); file: %s" % path)
-  with open(path) as f:
-    rec = json.load(f)
-  for ev in rec["events"]:
-    log(json.dumps({k: ev.get(k) for k in ("cfg", "w", "s", "b", "den", "xs", "outs", "oden", "call")}))
-  return 0
+  """The cases are regenerated from the seed recorded in the replay file: re-execute and compare."""
+  return common.rerun_replay(ctx, path, run)
